@@ -4,6 +4,7 @@ import (
 	"bytes"
 	"crypto"
 	"crypto/x509"
+	"encoding/asn1"
 	"fmt"
 	"math/big"
 	"strings"
@@ -72,7 +73,7 @@ func c04Setup() {
 			return c
 		}
 		ca1 := mk("ca1", 1, 7, 71, true, "1", nil, false)
-		mk("ca2", 2, 7, 72, true, "1", nil, false)    // sibling: same name, other key
+		mk("ca2", 2, 7, 72, true, "1", nil, false)        // sibling: same name, other key
 		ca3 := mk("ca3", 3, 8, 73, true, "1", nil, false) // other name
 		mk("canocrl", 4, 7, 74, true, "0", nil, false)
 		mk("canoku", 5, 7, 75, true, "-", nil, false)
@@ -89,14 +90,18 @@ func c04Setup() {
 }
 
 type c04Case struct {
-	Issuer  int      // CRL issuer name
-	AKI     string   // model argument
-	AKIDer  []byte   // AKI extension value, nil = no AKI
-	Signer  string   // who signs
+	Issuer  int    // CRL issuer name
+	AKI     string // model argument
+	AKIDer  []byte // AKI extension value, nil = no AKI
+	Signer  string // who signs
 	Chains  [][]string
 	Trusted []string
 	Leaf    string
 }
+
+// c04URIIssuer: when set, an AKI built without the directory name carries the issuer as a URI GeneralName instead of nothing
+// (both mean: no directory name to compare with).
+var c04URIIssuer = func() bool { return false }
 
 func c04AKI(kid int, serFrom *c04Cert, emptyIssuer bool) (string, []byte) {
 	var parts [][]byte
@@ -109,6 +114,8 @@ func c04AKI(kid int, serFrom *c04Cert, emptyIssuer bool) (string, []byte) {
 		if !emptyIssuer {
 			parts = append(parts, derTLV(0xA1, derTLV(0xA4, c04Names[serFrom.Issuer])))
 			i = fmt.Sprint(serFrom.Issuer)
+		} else if c04URIIssuer() {
+			parts = append(parts, derTLV(0xA1, derTLV(0x86, []byte("http://ca.example/issuer"))))
 		}
 		sb := serFrom.Cert.SerialNumber.Bytes()
 		if len(sb) > 0 && sb[0]&0x80 != 0 {
@@ -123,6 +130,7 @@ func c04AKI(kid int, serFrom *c04Cert, emptyIssuer bool) (string, []byte) {
 func c04Matrix(r *Run) {
 	c04Setup()
 	rng := r.Rng
+	c04URIIssuer = func() bool { return rng.Intn(2) == 0 }
 	n := 260
 	if r.Thorough() {
 		n = 6000
@@ -137,6 +145,11 @@ func c04Matrix(r *Run) {
 	cases = append(cases, c04Case{Issuer: 7, AKI: kArg, AKIDer: kDer, Signer: "leafski", Chains: [][]string{{"L", "ca1"}}, Leaf: "leafski"})
 	cases = append(cases, c04Case{Issuer: 7, AKI: "-", Signer: "leafname", Chains: [][]string{{"L", "ca1"}}, Leaf: "leafname"})
 	cases = append(cases, c04Case{Issuer: 7, AKI: "-", Signer: "canocrl", Chains: [][]string{{"L", "canocrl"}}, Leaf: "leaf"})
+	// AKI naming a certificate by serial number only (no directory name / a URI instead): no name to match, nobody is identified
+	sArg, sDer := c04AKI(0, c04Certs["ca3"], true)
+	cases = append(cases, c04Case{Issuer: 7, AKI: sArg, AKIDer: sDer, Signer: "ca3", Chains: [][]string{{"L", "ca1", "ca3"}}, Leaf: "leaf"})
+	sArg, sDer = c04AKI(0, c04Certs["t9"], true)
+	cases = append(cases, c04Case{Issuer: 7, AKI: sArg, AKIDer: sDer, Signer: "t9", Chains: [][]string{{"L", "ca1"}}, Trusted: []string{"t9"}, Leaf: "leaf"})
 	// the end-entity as the only certificate of its chain (pinned in the trust pool) signing a CRL about itself
 	k76, k76Der := c04AKI(76, nil, false)
 	cases = append(cases, c04Case{Issuer: 100, AKI: k76, AKIDer: k76Der, Signer: "leaf", Chains: [][]string{{"L"}}, Leaf: "leaf"})
@@ -200,9 +213,9 @@ func c04Matrix(r *Run) {
 						c.AKI, c.AKIDer = "-", nil
 					}
 				case 2:
-					c.AKI, c.AKIDer = c04AKI(0, sc, false)
+					c.AKI, c.AKIDer = c04AKI(0, sc, rng.Intn(3) == 0)
 				case 3:
-					c.AKI, c.AKIDer = c04AKI(sc.SKI, sc, false)
+					c.AKI, c.AKIDer = c04AKI(sc.SKI, sc, rng.Intn(4) == 0)
 				}
 				switch rng.Intn(6) {
 				case 0:
@@ -350,6 +363,29 @@ func c04Matrix(r *Run) {
 				if bytes.Equal(c04Certs[id].Cert.Raw, acceptedCert.Raw) {
 					entitled = true
 				}
+			}
+			// ... and it must be identified by the CRL: its subject is the CRL's issuer name, or the AKI's key identifier is its
+			// subject key id, or the AKI's issuer name + serial number are its issuer and serial
+			matches := bytes.Equal(acceptedCert.RawSubject, c04Names[c.Issuer])
+			if c.AKIDer != nil {
+				var aki struct {
+					KeyID  []byte        `asn1:"optional,tag:0"`
+					Issuer asn1.RawValue `asn1:"optional,tag:1"`
+					Serial *big.Int      `asn1:"optional,tag:2"`
+				}
+				if _, err := asn1.Unmarshal(c.AKIDer, &aki); err == nil {
+					if len(aki.KeyID) > 0 && bytes.Equal(aki.KeyID, acceptedCert.SubjectKeyId) {
+						matches = true
+					}
+					if aki.Serial != nil && aki.Serial.Cmp(acceptedCert.SerialNumber) == 0 && len(aki.Issuer.Bytes) > 2 &&
+						aki.Issuer.Bytes[0] == 0xA4 && bytes.Contains(aki.Issuer.Bytes, acceptedCert.RawIssuer) {
+						matches = true
+					}
+				}
+			}
+			if entitled && !matches {
+				r.Violate("C04 signer-not-identified-by-crl-accepted", fmt.Sprintf("case %d: CRL issued under name %d with AKI %s accepted under %s, which carries neither that name nor that key identifier nor that issuer+serial",
+					i, c.Issuer, c.AKI, describeCert(acceptedCert)), map[string]interface{}{"case": c, "op": op})
 			}
 			if !entitled {
 				r.Violate("C04 unentitled-signer-accepted", fmt.Sprintf("case %d: CRL signed by %s accepted under a certificate that is neither above the end-entity nor a trusted signer (%s)", i, c.Signer, describeCert(acceptedCert)),
